@@ -1,8 +1,10 @@
 """Operation sequences on configuration objects (C10, C11, C20): create / set / get / list / ext / write."""
 from .scn import Scenario, h
 
-SECTIONS = [b"A", b"[A]", b"B", b"", None, b"[B]", b"[]", b"[A", b"C]", b"AB", b"[AB]", b"a", b"ab", b"bA"]   # the last two: same djb2 hash
-KEYS = [b"x", b"y", b"z", b"w", b"", None, b"xy", b"X", b"x ", b"y\t", b" x"]   # the last three: blanks around a key handed to a setter or getter are part of the key
+SECTIONS = [b"A", b"[A]", b"B", b"", None, b"[B]", b"[]", b"[A", b"C]", b"AB", b"[AB]", b"a", b"ab", b"bA",   # the last two: same djb2 hash
+            # names around and beyond 256 bytes, plain and in brackets (the same section)
+            b"S" * 255, b"[" + b"S" * 255 + b"]", b"T" * 300, b"[" + b"T" * 300 + b"]"]
+KEYS = [b"x", b"y", b"z", b"w", b"", None, b"xy", b"X", b"x ", b"y\t", b" x", b"K" * 300]   # "x ", "y\t", " x": blanks around a key handed to a setter or getter are part of the key; the last one: a long key
 TEXTS = [b"1", b"v", b"", b"Yes Please", b"TRUE", b"no", b"0x10", b"-5", b"4294967296", b" padded ", b"a\nb", b'"q"',
          b"_none_", b"p-", b"010", b"12abc", None, b'  "hello world"', b'\t"q r" tail']
 INTS = ["0", "1", "-1", "2147483647", "-2147483648", "42"]
@@ -23,8 +25,26 @@ PARSED_FILES = [
 ]
 
 
+# files for a read with JOIN_SAME_ENTRIES=1: keys defined again with and without value, with and without comments on the line
+JOIN_FILES = [
+    b"m = a b # initial\nm = # cleared on purpose\nm = c # again\n[A]\nk=1 # c1\nk=\nk=2\n",
+    b"# lead\nx=1\nx=2 # two\n[A]\n# block\ny=\ny= # nothing\n[B]\nz=9\n",
+]
+
+
 def start(s, rng, slot=0):
-    c = rng.randrange(6)
+    c = rng.randrange(7)
+    if c == 6:
+        # the object a layered read with an option hands to the caller (definitions of a key joined, or python style)
+        d = b"/opt%d" % slot
+        opt = rng.choice([b"JOIN_SAME_ENTRIES=1", b"JOIN_SAME_ENTRIES=1", b"PYTHON_STYLE=1", b"JOIN_SAME_ENTRIES=1;PYTHON_STYLE=1"])
+        s.file(d + b"/etc/prj/cfg.conf", rng.choice(JOIN_FILES + PARSED_FILES[:3] + PARSED_FILES[6:]))
+        if rng.random() < 0.4:
+            s.file(d + b"/etc/prj/cfg.conf.d/a.conf", rng.choice([b"# off\n", b"x=9 # nine\nx=\n[A]\nnew=1\n"]))
+        s.add("NEW", slot, "opt", h(b"ROOT_PREFIX=" + d + b";" + opt))
+        s.add("RC", slot, h(b"prj"), h(b"/usr/etc"), h(b"cfg"), h(b"conf"), h(b"="), h(b"#"))
+        s.add("RAW", slot)
+        return c
     if c == 5:
         # the object a directory read hands to the caller (econf_readDirs: a main file, sometimes with a drop-in)
         d = b"/lay%d" % slot
